@@ -23,6 +23,50 @@ def _calls(body, pred):
     return [(bb, t) for bb, t in body.calls() if pred(t["callee"])]
 
 
+def _reach_with_consts(body, cfg, du, start, avoid):
+    """blocks reachable from `start` without entering `avoid`, following a switch on a bool local only along the edge that
+    matches the constant last assigned to it on this path (`let failed = match .. { Err(_) => true, .. }; if failed { sleep }`)"""
+    seen = set()
+    out = set()
+    stack = [(start, ())]
+    while stack:
+        bb, env = stack.pop()
+        if bb in avoid or (bb, env) in seen:
+            continue
+        seen.add((bb, env))
+        out.add(bb)
+        e = dict(env)
+        blk = body.blocks[bb]
+        for s_ in blk["stmts"]:
+            if s_["k"] != "assign" or s_["place"]["proj"]:
+                continue
+            l = s_["place"]["local"]
+            rv = s_["rv"]
+            if rv["k"] == "use" and "const" in rv["x"] and rv["x"]["const"].get("ty") == "bool" and "int" in rv["x"]["const"]:
+                e[l] = int(rv["x"]["const"]["int"])
+            elif rv["k"] == "use" and operand_place(rv["x"]) and not operand_place(rv["x"])["proj"] and operand_place(rv["x"])["local"] in e:
+                e[l] = e[operand_place(rv["x"])["local"]]
+            else:
+                e.pop(l, None)
+        t = blk["term"]
+        if t["k"] == "call" and not t["dest"]["proj"]:
+            e.pop(t["dest"]["local"], None)
+        nxt = cfg.succ[bb]
+        if t["k"] == "switch":
+            pl = operand_place(t["discr"])
+            if pl and not pl["proj"] and pl["local"] in e:
+                v = e[pl["local"]]
+                tgt = t["otherwise"]
+                for val, b2 in t["targets"]:
+                    if int(val) == v:
+                        tgt = b2
+                nxt = [tgt]
+        fe = tuple(sorted(e.items()))
+        for n in nxt:
+            stack.append((n, fe))
+    return out
+
+
 def _cnum(a):
     if "const" in a:
         c = a["const"]
@@ -41,7 +85,18 @@ def _duration_secs(du, op, facts, depth=0):
         return None
     r = du.root(op)
     if r[0] == "const":
-        # a named `const PAUSE: Duration = ...` is not followed (would need const evaluation of a struct)
+        # a named `const PAUSE: Duration = ...`: the driver dumps the evaluated struct
+        v = (r[1] or {}).get("value")
+        if isinstance(v, dict) and v.get("struct", "").endswith("time::Duration"):
+            f = {x["name"]: x["v"] for x in v.get("fields", [])}
+            try:
+                secs = int(f["secs"]["int"])
+                nn = f["nanos"]
+                while "fields" in nn:
+                    nn = nn["fields"][0]["v"]
+                return secs + int(nn["int"]) * 1e-9
+            except (KeyError, ValueError, TypeError):
+                return None
         return None
     if r[0] != "call":
         return None
@@ -160,7 +215,7 @@ def run(facts, rep, tier):
     for a, b in err_edges:
         n += 1
         # can we get from b back to the connect call avoiding all good sleep blocks?
-        r = cfg.reachable_from(b, avoid=good)
+        r = _reach_with_consts(tcp, cfg, du, b, good)
         ok = connect_bb not in r and b not in () and bool(good)
         if b in good:
             ok = True
